@@ -1,8 +1,10 @@
 (* C07 - declarative reading of the property, independent of how the code works, plus the
    boolean checkers the harness applies to implementation outputs. *)
-From Coq Require Import List ZArith Bool Arith.
+From Coq Require Import List ZArith Bool Arith Sorted QArith.
 From PV Require Import C07.Model.
 Import ListNotations.
+Local Close Scope Q_scope.
+Local Open Scope nat_scope.
 
 Definition in_vocab (V k : Z) : bool := (0 <=? k)%Z && (k <? V)%Z.
 
@@ -75,6 +77,48 @@ Definition is_best (row : list Z) (v : Z) (i : nat) : Prop :=
 
 Definition valid_len (T : nat) (l : option Z) : nat :=
   match l with None => T | Some z => Nat.min T (Z.to_nat z) end.
+
+(* the frame-wise best labels / their scores of one batch element (frames x classes) *)
+Definition labels (fr : list (list Z)) : list nat := map snd (map argmax_first fr).
+Definition maxima (fr : list (list Z)) : list Z := map fst (map argmax_first fr).
+
+(* per element: T when in_lens is absent, else in_lens clipped to [0, T] *)
+Definition eff_lens (T : nat) (in_lens : option (list Z)) (N : nat) : list nat :=
+  match in_lens with
+  | None => repeat T N
+  | Some ls => map (fun z => Nat.min T (Z.to_nat z)) ls
+  end.
+
+Definition norm_blank (V blank : Z) : nat := Z.to_nat ((blank + V) mod V).
+
+(* "the frame-wise best labels within the valid length with repeats and blanks removed" *)
+Definition row_path (b T l : nat) (fr : list (list Z)) : list nat := collapse b (firstn l (labels fr)).
+
+(* "together with their summed (or multiplied) frame scores"; [one] is the representation of 1.0
+   (frames beyond the valid length are filled with it), 1 on the reals *)
+Definition row_score (is_probs : bool) (one : Z) (T l : nat) (fr : list (list Z)) : Z :=
+  if is_probs then (fold_right Z.mul 1 (firstn l (maxima fr)) * one ^ Z.of_nat (T - l))%Z
+  else fold_right Z.add 0%Z (firstn l (maxima fr)).
+
+(* ---- random walk: admissible draws, padded samples ----------------------------------------- *)
+
+(* torch.multinomial returns one index in [0, V) per batch element *)
+Definition draw_ok (V : Z) (N : nat) (d : list Z) : Prop :=
+  length d = N /\ forallb (in_vocab V) d = true.
+
+(* a sample as the wrapper stacks it / as the test pads it: eos up to the step limit *)
+Definition pad_path (eos : option Z) (T : nat) (col : list Z) : list Z :=
+  match eos with Some e => col ++ repeat e (T - length col) | None => col end.
+
+Definition sumQ (l : list Q) : Q := fold_right Qplus 0%Q l.
+
+(* ---- packed sequences: what pack_padded_sequence records ---------------------------------------- *)
+
+(* number of sequences still running at time t = batch_sizes[t] *)
+Definition cnt (t : nat) (ls : list nat) : nat := sumn (map (fun l => b2n (t <? l)) ls).
+
+(* lengths in non-increasing order *)
+Definition desc (ls : list nat) : Prop := StronglySorted (fun a b => b <= a) ls.
 
 (* ---- boolean checkers for implementation outputs ----------------------------------------- *)
 
